@@ -14,6 +14,7 @@ import sys
 sys.path.insert(0, os.path.dirname(os.path.abspath(__file__)))
 import rustscan as rs  # noqa: E402
 
+CONTRACTS = os.path.join(os.path.dirname(os.path.dirname(os.path.abspath(__file__))), 'contracts')
 G_OPEN = '/*g<*/'
 G_CLOSE = '/*>g*/'
 
@@ -385,11 +386,14 @@ class Built:
         self.counts = {}     # normalisation hit counts
         self.fns = {}        # out fn name -> dict(props, expect_fail, first_line, last_line, src)
         self.assumptions = []
+        self.assumed = []    # fns whose contract is assumed here (proved in another unit)
 
 
-def _read_template(path, variant, seen=None):
-    """Expands //@include and //@if; returns list of (line, file, lineno)."""
-    seen = seen or set()
+def _read_template(path, variant, seen=None, assumed=False):
+    """Expands //@include, //@assume and //@if; returns list of (line, file, lineno, assumed).
+    `//@assume f` keeps only the //@fn / //@implopen / //@implclose / //@item / //@rename blocks of f and marks
+    them assumed: the function is emitted as signature + contract with an external body (proved in another unit)."""
+    seen = seen if seen is not None else set()
     out = []
     base = os.path.dirname(path)
     with open(path, encoding='utf-8') as f:
@@ -410,14 +414,31 @@ def _read_template(path, variant, seen=None):
             continue
         if not active[-1]:
             continue
-        if st.startswith('//@include '):
-            inc = os.path.join(base, st.split(None, 1)[1].strip())
+        if st.startswith('//@include ') or st.startswith('//@assume '):
+            inc = os.path.normpath(os.path.join(CONTRACTS, st.split(None, 1)[1].strip()))
             if inc in seen:
                 continue
             seen.add(inc)
-            out.extend(_read_template(inc, variant, seen))
+            sub = _read_template(inc, variant, seen, assumed or st.startswith('//@assume '))
+            out.extend(sub)
             continue
-        out.append((ln, path, no))
+        out.append((ln, path, no, assumed))
+    if assumed:
+        # keep only directive blocks
+        kept = []
+        infn = False
+        for t in out:
+            st = t[0].strip()
+            if t[3] is False:
+                kept.append(t)
+                continue
+            if st.startswith('//@fn '):
+                infn = True
+            if infn or st.startswith('//@implopen') or st.startswith('//@implclose') or st.startswith('//@rename'):
+                kept.append(t)
+            if st == '//@end':
+                infn = False
+        out = kept
     return out
 
 
@@ -454,7 +475,7 @@ def build_unit(template, repo, variant='A'):
             b.origin.append(origin)
 
     while i < n:
-        ln, tf, tno = tl[i]
+        ln, tf, tno, is_assumed = tl[i]
         m = _DIR.match(ln)
         if not m:
             if re.match(r'^\s*(pub\s+)?(broadcast\s+)?proof\s+fn\b', ln) and not (b.lines and 'nospin' in b.lines[-1]):
@@ -521,7 +542,7 @@ def build_unit(template, repo, variant='A'):
             i += 1
             start_tno = tno
             while i < n:
-                l2, tf2, tno2 = tl[i]
+                l2, tf2, tno2, _a2 = tl[i]
                 m2 = _DIR.match(l2)
                 if m2:
                     d2, rest2 = m2.group(1), m2.group(2)
@@ -564,20 +585,30 @@ def build_unit(template, repo, variant='A'):
                 nt = re.sub(r'\bfn\b', 'pub fn', nt, count=1)
                 c['N6_pub_added_to_trait_method'] = 1
             _merge(b.counts, c)
+            if is_assumed:
+                spec['entry'] = []
+                spec['loops'] = {}
+                spec['anchors'] = []
+                fnpos, bopen, bclose = _sig_body(nt)
+                nt = nt[:bopen] + '{ unimplemented!() }'
             spliced = splice_fn(nt, spec, outname)
             # self-check: exec-only view of the spliced text == normalised original
             if _ws(strip_ghost(spliced)) != _ws(nt):
                 raise ExtractError('self-check', 'splicing changed executable text of %s' % name)
             first = len(b.lines) + 1
             src_line = text.count('\n', 0, it.hstart) + 1
-            if not kw.get('nospinoff'):
+            if is_assumed:
+                b.lines.append('#[verifier::external_body]')
+                b.origin.append({'k': 'ghost', 'f': rel, 'fn': outname, 'tl': start_tno})
+                b.assumed.append(outname)
+            elif not kw.get('nospinoff'):
                 b.lines.append('#[verifier::spinoff_prover]')
                 b.origin.append({'k': 'ghost', 'f': rel, 'fn': outname, 'tl': start_tno})
             for t, g in spliced:
                 b.lines.append(t)
                 b.origin.append({'k': 'ghost' if g else 'src', 'f': rel, 'fn': outname, 'tl': start_tno})
             last = len(b.lines)
-            b.fns[outname] = {'props': [p for p in kw.get('props', '').split(',') if p], 'expect_fail': kw.get('expect-fail'),
+            b.fns[outname] = {'props': [] if is_assumed else [p for p in kw.get('props', '').split(',') if p], 'assumed': is_assumed, 'expect_fail': kw.get('expect-fail'),
                               'first': first, 'last': last, 'file': rel, 'src_name': name, 'impl': header,
                               'src_line': src_line, 'sha256': hashlib.sha256(raw.encode()).hexdigest()}
             b.items.append({'kind': 'fn', 'name': (header + '::' if header else '') + name, 'as': outname, 'file': rel,
